@@ -83,7 +83,8 @@ Definition urep_of (svc : Z) (rp : mr_reply) : urep :=
   mkRep ((rp_status rp =? Consts.SUCCESS)
          || ((rp_status rp =? Consts.INSUFFICIENT_PACKETS) && multi_packet_service svc))
         (rp_status rp)
-        (flat_map (le_enc 2) (rp_ext rp) ++ rp_data rp).
+        (flat_map (le_enc 2) (rp_ext rp) ++ rp_data rp)
+        false.   (* a well-formed reply frame: response.error does not raise (C13) *)
 
 (* one connected request answered by the Logix handler with reply capacity [cap]; an object the
    handler does not implement is answered 0x05 by the core *)
